@@ -72,7 +72,7 @@ def _with_cregs(counts, ncl):
     return {k + " " + "0" * ncl: v for k, v in counts.items()}
 
 
-def full_tomography(N, conn, mq, prover, with_density=True, variant="plain"):
+def full_tomography(N, conn, mq, prover, with_density=True, variant="plain", warm=None):
     """real full_state_tomography_circuits + FullStateTomographyFitter on the symbolic state.  -> (problems, stats)"""
     from qiskit import QuantumCircuit
     tm = loader.sym("tomography")
@@ -80,6 +80,19 @@ def full_tomography(N, conn, mq, prover, with_density=True, variant="plain"):
         loader.reset_state(mname)
     m = N if mq is None else len(mq)
     problems, pairs = [], []
+    if warm is not None:
+        # history step: a complete tomography of the same register size with another connectivity, evaluated in the same
+        # interpreter (no reset afterwards); its results are discarded
+        try:
+            prep0 = make_prep(N, "plain")
+            circs0 = tm.full_state_tomography_circuits(prep0, warm, None)
+            counts0 = [_with_cregs(exact_counts(ztab.gates_of(c, allow_measure=True), N), prep0.num_clbits) for c in circs0]
+            fit0 = tm.FullStateTomographyFitter(FakeResult(counts0), circs0)
+            fit0.expectation_values()
+            if with_density:
+                fit0.density_matrix()
+        except NonLinear:
+            pass
     prep = make_prep(N, variant if mq is not None else "plain")
     ncl = prep.num_clbits
     circs = tm.full_state_tomography_circuits(prep, conn, mq)
